@@ -233,3 +233,99 @@ Lemma process_no_settings :
 Proof.
   induction p; intros c st q st' p' H; ns_solve H.
 Qed.
+
+
+(* ---------------------------------------------------------------- plans that draw no id: the counter is irrelevant *)
+Lemma with_connector_lift mainp withp c st fn n :
+  (forall c st n, process mainp c (add_pid n st) = lift_pid n (process mainp c st)) ->
+  (forall c st n, process withp c (add_pid n st) = lift_pid n (process withp c st)) ->
+  with_connector process mainp withp c (add_pid n st) fn =
+  match with_connector process mainp withp c st fn with
+  | Some (r, st', m', w') => Some (r, add_pid n st', m', w')
+  | None => None
+  end.
+Proof.
+  intros IHm IHw. unfold with_connector. rewrite IHm.
+  destruct (process mainp c st) as [[[q1 s1] p1]|]; cbn [lift_pid bind]; [|reflexivity].
+  change (fp_cache (add_pid n s1)) with (fp_cache s1). destruct (fp_cache s1) as [w|] eqn:E; [reflexivity|].
+  rewrite IHw.
+  destruct (process withp c s1) as [[[q2 s2] p2]|]; cbn [lift_pid bind]; reflexivity.
+Qed.
+
+Ltac split_orb H :=
+  repeat match type of H with
+  | (_ || _)%bool = false => let A := fresh "Hd" in let B := fresh "Hd" in apply orb_false_elim in H; destruct H as [A B]; try split_orb A; try split_orb B
+  end.
+
+Lemma no_ids_pid_irrelevant : forall p, draws_ids p = false ->
+  forall c st n, process p c (add_pid n st) = lift_pid n (process p c st).
+Proof.
+  induction p; cbn [draws_ids]; intros Hd c st n; try discriminate Hd.
+  all: try (apply orb_false_elim in Hd; destruct Hd as [Hd1 Hd2]).
+  all: try (apply orb_false_elim in Hd1; destruct Hd1 as [Hd1 Hd3]).
+  all: cbn [process].
+  all: try reflexivity.
+  all: repeat match goal with
+       | IH : draws_ids ?m = false -> _, H : draws_ids ?m = false |- _ => specialize (IH H)
+       end.
+  all: try (rewrite with_connector_lift by assumption;
+            match goal with |- context [with_connector process ?a ?b ?c ?s ?f] => destruct (with_connector process a b c s f) as [[[[? ?] ?] ?]|] end;
+            cbn [bind lift_pid]; [|reflexivity]).
+  all: try match goal with |- context [clear_caches (add_pid ?k ?s)] => change (clear_caches (add_pid k s)) with (add_pid k (clear_caches s)) end.
+  all: repeat match goal with
+       | IH : (forall c st n, process ?m c (add_pid n st) = _) |- context [process ?m ?c (add_pid ?n ?s)] => rewrite (IH c s n)
+       end.
+  all: repeat first
+       [ match goal with |- context [process ?m ?c ?s] => destruct (process m c s) as [[[? ?] ?]|]; cbn [bind lift_pid] end
+       | match goal with |- context [bind ?x _] => destruct x; cbn [bind lift_pid] end
+       | match goal with |- context [match ?x with _ => _ end] => destruct x; cbn [bind lift_pid] end ].
+  all: try reflexivity.
+Qed.
+
+Lemma advance_is_window c : advance c = with_window c ((c_from_ns c + 1000000000)%Z, (c_to_ns c + 1000000000)%Z).
+Proof. reflexivity. Qed.
+
+Lemma reuse_is_fresh_exact p :
+  is_root p = true -> draws_ids p = false -> forall k c st, run_plan k p c st = fresh_seq k p c.
+Proof.
+  intros R D k. induction k as [|k IH]; intros c st; cbn [run_plan fresh_seq]; [reflexivity|].
+  rewrite (root_ignores_caches p c st R), clear_at_pid.
+  change (at_pid (pid st)) with (add_pid (pid st) pst0).
+  rewrite (no_ids_pid_irrelevant p D c pst0 (pid st)).
+  destruct (process p c pst0) as [[[q st1] p1]|] eqn:E; cbn [lift_pid]; [|reflexivity].
+  apply process_preserves_plan in E. subst p1. rewrite IH. reflexivity.
+Qed.
+
+(* without the guard the statements differ (in the alias numbers): the witness plan, two executions *)
+Lemma reuse_exact_needs_guard :
+  match witness_plan with
+  | None => False
+  | Some p => draws_ids p = true /\
+              olist_eqb (run_plan 2 p witness_ctx pst0) (fresh_seq 2 p witness_ctx) = false /\
+              olist_eqb (run_plan 1 p witness_ctx pst0) (fresh_seq 1 p witness_ctx) = true
+  end.
+Proof. vm_compute. split; [reflexivity|split; reflexivity]. Qed.
+
+(* a plan that meets the guard: {a="b"} |= "x" | json x="x" is planned without an id-drawing planner *)
+Definition noid_sel : strsel :=
+  {| sel_matchers := [{| m_name := "a"; m_op := MEq; m_val := "b" |}];
+     sel_pipeline := [PLineFilter LFContains "x" None; PParser PJson [{| pp_label := "x"; pp_val := "x"; pp_path := Some ["x"] |}]] |}.
+Lemma noid_plan_meets_guard :
+  match plan_log noid_sel true with
+  | Some p => is_root p = true /\ draws_ids p = false /\ fresh_seq 2 p witness_ctx <> [None]
+  | None => False
+  end.
+Proof. vm_compute. split; [reflexivity|split; [reflexivity|discriminate]]. Qed.
+
+(* ---------------------------------------------------------------- what a Process call can depend on *)
+(* `process` is a function: its result is determined by its three arguments, and the state argument has
+   exactly three components *)
+Lemma process_inputs p c st st' :
+  fp_cache st = fp_cache st' -> labels_cache st = labels_cache st' -> pid st = pid st' ->
+  process p c st = process p c st'.
+Proof. destruct st, st'; cbn; intros -> -> ->. reflexivity. Qed.
+Lemma root_inputs p c st st' :
+  is_root p = true -> pid st = pid st' -> process p c st = process p c st'.
+Proof.
+  intros R E. rewrite (root_ignores_caches p c st R), (root_ignores_caches p c st' R), !clear_at_pid, E. reflexivity.
+Qed.
